@@ -55,3 +55,13 @@ From Clip Require Import Model.Measures Model.KernelOps Gen.Kernels_gen Model.Ke
 Theorem C08_orientation_from_source : forall p,
   gen_IsPositive64_body = "return Area64(poly) >= 0"%string /\ IsPositive64_model p = (0 <=? gen_area2 p)%Z.
 Proof. intros p. split; [exact gen_IsPositive64_body_eq|]. rewrite gen_area2_eq. reflexivity. Qed.
+
+(* K3 tripwire for the hand-written models this file's theorems are about: the source text of the modelled functions is
+   the text the models were last reconciled with (Model/Fingerprints.v, written by tools/update_fingerprints.sh after clean
+   correspondence runs; Gen/Fingerprints_gen.v is regenerated from /repo on every run).  When this breaks, the functions
+   were edited: the check widens its search for a failing input and reports the broken obligation either way. *)
+From Coq Require Import String.
+From Clip Require Import Gen.Fingerprints_gen Model.Fingerprints.
+Theorem C08_modelled_source_unchanged :
+  fps_agree gen_fingerprints ["minkowskiInternal"; "MinkowskiSum64"; "MinkowskiDiff64"]%string = true.
+Proof. vm_compute. reflexivity. Qed.
